@@ -1,6 +1,6 @@
-CONSTANTS W = 3 Target = 2 Epochs = 1 KeepSender = FALSE JoinUnwrap = FALSE Faults <- NoFaults QMax = 2 Outcomes <- OutAll BchThreshold = 0 MaxFrames = 5
+CONSTANTS W = 3 Target = 2 Epochs = 2 KeepSender = FALSE JoinUnwrap = FALSE Faults <- NoFaults QMax = 2 Outcomes <- OutAll BchThreshold = 0 RQMax = 2 MaxFrames = 5
 SPECIFICATION Spec
 VIEW View
 CONSTRAINT FrameBound
-INVARIANTS StatsExact StopExact NoLeak FinishedLast NoCollectorPanic NoStuck ErrorOnFault
+INVARIANTS OneLinePerEbN0 LinesPrefix StatsExact StopExact NoLeak FinishedLast NoCollectorPanic NoStuck ErrorOnFault
 CHECK_DEADLOCK FALSE
